@@ -9,7 +9,7 @@ package processor
 //verif:pkg pkg/segment/query/processor
 //verif:entry VerifC05MergeLimit conf=6
 //verif:stub-always github.com/siglens/siglens/pkg/utils.isNil verifC05IsNil
-//verif:bound two input streams of 1..3 rows each (quick: at most 4 rows in total), ascending free int64 keys within each stream, each stream delivered in one or two batches and ending either with a separate end-of-stream answer or together with its last batch; limit absent or 1..total+1; DataProcessor.getStreamInput is called until it reports the end; optionally DataProcessor.Rewind and a second complete read
+//verif:bound two input streams of 1..3 rows each (at most 4 rows in total quick, 5 thorough), ascending free int64 keys within each stream, each stream delivered in one or two batches and ending either with a separate end-of-stream answer or together with its last batch; limit absent or 1..total+1; DataProcessor.getStreamInput is called until it reports the end; optionally DataProcessor.Rewind and a second complete read
 //verif:outside more than two streams, descending/multi-key comparators (the comparator is the caller's), the processors fed by the merge, parallel fetch scheduling (goroutines run inline under the engine)
 
 import (
@@ -79,6 +79,8 @@ func VerifC05MergeLimit() {
 	nb := 1 + zz.Choice("rowsB", 3)
 	if zz.Tier() == 0 {
 		zz.Assume(na+nb <= 4)
+	} else {
+		zz.Assume(na+nb <= 5) // six rows did not finish within the thorough tier's time limit
 	}
 	a, b := make([]int64, na), make([]int64, nb)
 	for i := range a {
